@@ -7,7 +7,7 @@ Extraction "C13_model.ml"
   st_insert st_get writebuf_control wb_hdr wb_pos wb_remaining wb_chunk wb_advance
   apply_settings default_applied frame_decode st_decode
   client_builder server_builder setup_control
-  init_peer settings_view on_control_frame recv_control handle_connection_error builder_config default_config
+  init_peer settings_view on_control_frame recv_control handle_connection_error builder_config build_twice default_config
   opt_value opt_default
   rfc_vi rfc_vi_enc rfc_varint rfc_settings rfc_receive rfc_apply rfc_defaults rfc_control_stream_start rfc_config_pairs
   rfc_known_ids rfc_reserved_ids rfc_has_dup rfc_ids rfc_in rfc_is_grease
